@@ -1,7 +1,8 @@
 SPECIFICATION Spec
 CONSTANTS
-  T = "i16"
+  T = "i8"
   Dom <- DomEdgeT
   ClampBug = FALSE
   SizeBug = FALSE
-INVARIANTS InType Prefix AtEnd SizeLaw RangeLaw
+  DefBug = TRUE
+INVARIANTS RangeLaw
